@@ -1,7 +1,13 @@
-(** C02 proofs. *)
-From TU Require Import Base BPE_Model C02_Model.
+(** C02 proofs: word splitting, UTF-8 bytes, decoding, the tokenizer-level theorems. *)
+From TU Require Import Base BPE_Model C02_Model C02_Inv C02_Loop.
+From Coq Require Import Lia ZifyN ZifyBool.
 Open Scope N_scope.
+Arguments N.add : simpl never.
+Arguments N.ltb : simpl never.
+Arguments N.div : simpl never.
+Arguments N.modulo : simpl never.
 
+(** * strip_trailing_ws *)
 Lemma strip_prefix_l : forall s, exists t, s = strip_trailing_ws s ++ t /\ forallb is_ws t = true.
 Proof.
   induction s as [|c r IH]; cbn [strip_trailing_ws].
@@ -13,4 +19,306 @@ Proof.
       * exists (c :: r). split; [reflexivity|]. cbn [forallb]. rewrite Ec, Ht. reflexivity.
       * exists r. split; [reflexivity|assumption].
     + exists t. split; [|assumption]. cbn [app]. f_equal. exact Hr.
+Qed.
+
+Lemma strip_last_l : forall s, strip_trailing_ws s = [] \/
+  exists t c, strip_trailing_ws s = t ++ [c] /\ is_ws c = false.
+Proof.
+  induction s as [|x r IH]; cbn [strip_trailing_ws]; [left; reflexivity|].
+  destruct (strip_trailing_ws r) as [|y r'] eqn:E.
+  - destruct (is_ws x) eqn:Ex; [left; reflexivity|]. right. exists [], x. split; [reflexivity|exact Ex].
+  - right. destruct IH as [IH|[t [c [Ht Hc]]]]; [discriminate|].
+    exists (x :: t), c. rewrite Ht. split; [reflexivity|exact Hc].
+Qed.
+
+Lemma strip_id_l : forall s c, is_ws c = false -> strip_trailing_ws (s ++ [c]) = s ++ [c].
+Proof.
+  induction s as [|x s IH]; intros c Hc; cbn [app strip_trailing_ws].
+  - rewrite Hc. reflexivity.
+  - rewrite (IH c Hc). destruct s; reflexivity.
+Qed.
+
+(** the complete specification: the unique split into a part that does not end in
+    whitespace and an all-whitespace rest *)
+Lemma strip_spec_l : forall s,
+  (exists t, s = strip_trailing_ws s ++ t /\ forallb is_ws t = true) /\
+  (strip_trailing_ws s = [] \/ exists t c, strip_trailing_ws s = t ++ [c] /\ is_ws c = false) /\
+  (forall t c, s = t ++ [c] -> is_ws c = false -> strip_trailing_ws s = s).
+Proof.
+  intro s. split; [apply strip_prefix_l|]. split; [apply strip_last_l|].
+  intros t c -> Hc. apply strip_id_l. exact Hc.
+Qed.
+
+(** * the word scanner *)
+Definition sc_rhs (cur : list N) (seen : bool) (t : list N) : list N :=
+  match t with [] => if seen then cur else [] | _ => cur ++ t end.
+
+Lemma scan_concat : forall s cur seen, concat (scan_words cur seen s) = sc_rhs cur seen (strip_trailing_ws s).
+Proof.
+  induction s as [|c r IH]; intros cur seen; cbn [scan_words strip_trailing_ws].
+  - destruct seen; cbn [concat sc_rhs]; [apply app_nil_r|reflexivity].
+  - destruct (is_ws c) eqn:Ec.
+    + destruct seen.
+      * cbn [concat]. rewrite IH. destruct (strip_trailing_ws r) as [|y r']; cbn [sc_rhs].
+        -- apply app_nil_r.
+        -- reflexivity.
+      * rewrite IH. destruct (strip_trailing_ws r) as [|y r']; cbn [sc_rhs]; [reflexivity|].
+        rewrite <- app_assoc. reflexivity.
+    + rewrite IH. destruct (strip_trailing_ws r) as [|y r']; cbn [sc_rhs]; [reflexivity|].
+      rewrite <- app_assoc. reflexivity.
+Qed.
+
+Lemma words_concat s : concat (bpe_words s) = strip_trailing_ws s.
+Proof. unfold bpe_words. rewrite scan_concat. destruct (strip_trailing_ws s); reflexivity. Qed.
+
+(** * UTF-8 bytes are bytes *)
+Ltac Zify.zify_post_hook ::= Z.div_mod_to_equations.
+Lemma utf8_bytes c : valid_cp c -> Forall (fun b => b < 256) (utf8 c).
+Proof.
+  unfold valid_cp, utf8. intro H.
+  destruct (c <? 128) eqn:E1; [repeat constructor; lia|].
+  destruct (c <? 2048) eqn:E2; [repeat constructor; lia|].
+  destruct (c <? 65536) eqn:E3; repeat constructor; lia.
+Qed.
+Ltac Zify.zify_post_hook ::= idtac.
+
+Lemma utf8s_bytes s : Forall valid_cp s -> Forall (fun b => b < 256) (utf8s s).
+Proof.
+  induction 1 as [|c s Hc _ IH]; [constructor|]. unfold utf8s. cbn [flat_map].
+  apply Forall_app. split; [apply utf8_bytes; exact Hc|exact IH].
+Qed.
+
+Lemma utf8s_app a b : utf8s (a ++ b) = utf8s a ++ utf8s b.
+Proof. apply flat_map_app. Qed.
+
+Lemma utf8s_concat ws : utf8s (concat ws) = concat (map utf8s ws).
+Proof. induction ws as [|w ws IH]; [reflexivity|]. cbn [concat map]. rewrite utf8s_app, IH. reflexivity. Qed.
+
+(** * decoding the ids of tokens *)
+Lemma tok_decode tbl b : Tok tbl b ->
+  id_of tbl b < 256 + N.of_nat (length tbl) /\ tok_bytes tbl (id_of tbl b) = b.
+Proof.
+  intros [[x [-> Hx]]|[Hl [m Hm]]].
+  - cbn [id_of]. unfold tok_bytes. replace (x <? 256) with true by (symmetry; apply N.ltb_lt; exact Hx).
+    split; [lia|reflexivity].
+  - rewrite (id_of_long _ _ _ Hl Hm). pose proof (lookup_lt _ _ _ Hm) as Lt. split; [lia|].
+    unfold tok_bytes. replace (256 + m <? 256) with false by (symmetry; apply N.ltb_ge; lia).
+    replace (256 + m - 256) with m by lia. apply lookup_nth. exact Hm.
+Qed.
+
+Lemma decode_app tbl a b : bpe_decode tbl (a ++ b) = bpe_decode tbl a ++ bpe_decode tbl b.
+Proof. apply flat_map_app. Qed.
+
+Lemma decode_toks tbl ts : Forall (Tok tbl) ts ->
+  bpe_decode tbl (map (id_of tbl) ts) = concat ts /\
+  Forall (fun id => id < 256 + N.of_nat (length tbl)) (map (id_of tbl) ts).
+Proof.
+  induction 1 as [|b ts Hb _ [IH1 IH2]]; [split; [reflexivity|constructor]|].
+  destruct (tok_decode tbl b Hb) as [H1 H2]. cbn [map concat]. split.
+  - unfold bpe_decode in *. cbn [flat_map]. rewrite IH1.
+    replace (id_of tbl b <? 256 + N.of_nat (length tbl)) with true by (symmetry; apply N.ltb_lt; exact H1).
+    rewrite H2. reflexivity.
+  - constructor; assumption.
+Qed.
+
+Lemma flatten_ids_toks tbl bs : flatten_ids (map (idopt tbl) bs) = map (id_of tbl) (toks bs).
+Proof.
+  induction bs as [|b bs IH]; [reflexivity|]. unfold flatten_ids in *. cbn [map flat_map]. rewrite IH.
+  destruct b as [|x b]; [reflexivity|]. rewrite toks_cons_nonnil by discriminate. reflexivity.
+Qed.
+
+Lemma toks_forall (P : list N -> Prop) : forall bs, (forall k, nth k bs [] <> [] -> P (nth k bs [])) -> Forall P (toks bs).
+Proof.
+  induction bs as [|b bs IH]; intro H; [constructor|].
+  assert (Hr : Forall P (toks bs)) by (apply IH; intros k Hk; apply (H (S k)); exact Hk).
+  destruct b as [|x b]; [exact Hr|]. rewrite toks_cons_nonnil by discriminate.
+  constructor; [apply (H O); discriminate|exact Hr].
+Qed.
+
+Lemma concat_toks bs : concat (toks bs) = concat bs.
+Proof.
+  induction bs as [|b bs IH]; [reflexivity|]. destruct b as [|x b]; [exact IH|].
+  rewrite toks_cons_nonnil by discriminate. cbn [concat]. rewrite IH. reflexivity.
+Qed.
+
+(** one word: ids exist, decode to the word, are regular vocabulary ids *)
+Lemma word_lossless tbl w : Forall (fun b => b < 256) w ->
+  exists ids, merge_word tbl w = Some ids /\ bpe_decode tbl ids = w /\
+              Forall (fun id => id < 256 + N.of_nat (length tbl)) ids.
+Proof.
+  intro Hb. destruct (merge_word_inv_l tbl w Hb) as [bs [E [Hc Ht]]].
+  unfold merge_word. rewrite E. cbn [option_map snd]. eexists. split; [reflexivity|].
+  rewrite flatten_ids_toks.
+  destruct (decode_toks tbl (toks bs) (toks_forall _ _ Ht)) as [D1 D2].
+  split; [|exact D2]. rewrite D1, concat_toks. exact Hc.
+Qed.
+
+(** * the text level *)
+Lemma body_words tbl : forall ws, (forall w, In w ws -> Forall valid_cp w) ->
+  exists idss, all_some (map (fun w => merge_word tbl (utf8s w)) ws) = Some idss /\
+    bpe_decode tbl (concat idss) = utf8s (concat ws) /\
+    Forall (fun id => id < 256 + N.of_nat (length tbl)) (concat idss).
+Proof.
+  induction ws as [|w ws IH]; intro Hv.
+  - exists []. repeat split. constructor.
+  - destruct IH as [idss [A [D V]]]; [intros x Hx; apply Hv; right; exact Hx|].
+    destruct (word_lossless tbl (utf8s w)) as [ids [M [Dw Vw]]];
+      [apply utf8s_bytes; apply Hv; left; reflexivity|].
+    exists (ids :: idss). cbn [map all_some concat]. rewrite M, A. cbn [option_map]. split; [reflexivity|]. split.
+    + rewrite decode_app, Dw, D, utf8s_app. reflexivity.
+    + apply Forall_app. split; assumption.
+Qed.
+
+Lemma words_valid s : Forall valid_cp s -> forall w, In w (bpe_words s) -> Forall valid_cp w.
+Proof.
+  intros Hs w Hw. apply Forall_forall. intros c Hc.
+  assert (Hin : In c (concat (bpe_words s))) by (apply in_concat; exists w; split; assumption).
+  rewrite words_concat in Hin. destruct (strip_prefix_l s) as [t [E _]].
+  apply (proj1 (Forall_forall _ _) Hs). rewrite E. apply in_or_app. left. exact Hin.
+Qed.
+
+Lemma body_lossless tbl s : Forall valid_cp s ->
+  exists body, bpe_body tbl s = Some body /\ bpe_decode tbl body = utf8s (strip_trailing_ws s) /\
+               Forall (fun id => id < 256 + N.of_nat (length tbl)) body.
+Proof.
+  intro Hs. destruct (body_words tbl (bpe_words s) (words_valid s Hs)) as [idss [A [D V]]].
+  exists (concat idss). unfold bpe_body. rewrite A. cbn [option_map]. rewrite D, words_concat.
+  repeat split. exact V.
+Qed.
+
+(** * special ids *)
+Lemma index_of_range x : forall l k i, index_of x l k = Some i -> k <= i < k + N.of_nat (length l).
+Proof.
+  induction l as [|y l IH]; intros k i H; cbn [index_of] in H; [discriminate|].
+  destruct (nlist_eqb y x).
+  - injection H as <-. cbn [length]. lia.
+  - apply IH in H. cbn [length]. lia.
+Qed.
+
+Lemma special_id_range c t id : special_id c t = Some id -> n_regular c <= id < vocab_size c.
+Proof.
+  unfold special_id, vocab_size. destruct (index_of t (uniq [] (c_toks c)) 0) as [i|] eqn:E; [|discriminate].
+  cbn [option_map]. intro H. injection H as <-. apply index_of_range in E. lia.
+Qed.
+
+Lemma all_some_forall {A B} (f : A -> option B) : forall l,
+  forallb (fun t => match f t with Some _ => true | None => false end) l = true ->
+  exists r, all_some (map f l) = Some r /\ forall y, In y r -> exists t, f t = Some y.
+Proof.
+  induction l as [|x l IH]; intro H.
+  - exists []. split; [reflexivity|]. intros y [].
+  - cbn [forallb] in H. apply andb_true_iff in H. destruct H as [H1 H2].
+    destruct (IH H2) as [r [E Hr]]. destruct (f x) as [y|] eqn:Ex; [|discriminate].
+    exists (y :: r). cbn [map all_some]. rewrite Ex, E. split; [reflexivity|].
+    intros z [<-|Hz]; [exists x; exact Ex|apply Hr; exact Hz].
+Qed.
+
+Lemma all_some_none {A B} (f : A -> option B) : forall l,
+  forallb (fun t => match f t with Some _ => true | None => false end) l = false -> all_some (map f l) = None.
+Proof.
+  induction l as [|x l IH]; intro H; [discriminate|]. cbn [forallb] in H. cbn [map all_some].
+  destruct (f x) as [y|]; [|reflexivity]. cbn [andb] in H. rewrite (IH H). reflexivity.
+Qed.
+
+Lemma decode_specials tbl ids : Forall (fun id => 256 + N.of_nat (length tbl) <= id) ids -> bpe_decode tbl ids = [].
+Proof.
+  induction 1 as [|id ids H _ IH]; [reflexivity|]. unfold bpe_decode in *. cbn [flat_map]. rewrite IH.
+  replace (id <? 256 + N.of_nat (length tbl)) with false by (symmetry; apply N.ltb_ge; exact H). reflexivity.
+Qed.
+
+(** * the tokenizer *)
+Lemma bpe_lossless_l c s : Forall valid_cp s -> config_ok c = true ->
+  exists ids, bpe_tokenize c s = Some ids /\
+    bpe_decode (eff_table c) ids = utf8s (strip_trailing_ws s) /\
+    Forall (fun id => id < vocab_size c) ids.
+Proof.
+  intros Hs Hc. unfold config_ok in Hc. apply andb_true_iff in Hc. destruct Hc as [Ht Hps].
+  rewrite forallb_app in Hps. apply andb_true_iff in Hps. destruct Hps as [Hp Hsu].
+  destruct (all_some_forall _ _ Hp) as [pre [Ep Rp]]. destruct (all_some_forall _ _ Hsu) as [suf [Es Rs]].
+  destruct (body_lossless (eff_table c) s Hs) as [body [Eb [Db Vb]]].
+  exists (pre ++ body ++ suf). unfold bpe_tokenize. rewrite Ep, Es, Eb.
+  destruct (c_toks c) as [|t0 ts] eqn:Et; [discriminate|]. split; [reflexivity|].
+  assert (Sp : forall l, (forall y, In y l -> exists t, special_id c t = Some y) ->
+               Forall (fun id => n_regular c <= id < vocab_size c) l).
+  { intros l Hl. apply Forall_forall. intros y Hy. destruct (Hl y Hy) as [t Hy']. eapply special_id_range. exact Hy'. }
+  pose proof (Sp pre Rp) as Fp. pose proof (Sp suf Rs) as Fs. split.
+  - rewrite !decode_app, Db.
+    rewrite (decode_specials _ pre), (decode_specials _ suf).
+    + apply app_nil_r.
+    + eapply Forall_impl; [|exact Fs]. unfold n_regular. intros a Ha. lia.
+    + eapply Forall_impl; [|exact Fp]. unfold n_regular. intros a Ha. lia.
+  - apply Forall_app. split; [eapply Forall_impl; [|exact Fp]; intros a Ha; cbv beta in *; lia|].
+    apply Forall_app. split; [|eapply Forall_impl; [|exact Fs]; intros a Ha; cbv beta in *; lia].
+    eapply Forall_impl; [|exact Vb]. unfold vocab_size, n_regular. intros a Ha. cbv beta in *. lia.
+Qed.
+
+Lemma bpe_tokenize_error c s : config_ok c = false -> bpe_tokenize c s = None.
+Proof.
+  unfold config_ok, bpe_tokenize. intro H. destruct (c_toks c) as [|t0 ts]; [reflexivity|].
+  cbn [is_nil negb andb] in H. rewrite forallb_app in H. apply andb_false_iff in H.
+  destruct H as [H|H]; rewrite (all_some_none _ _ H); [reflexivity|].
+  destruct (all_some (map (special_id c) (c_prefix c))); reflexivity.
+Qed.
+
+(** [merge_word_fuel] at the tokenizer level: with a valid configuration the only [None] of
+    [bpe_tokenize] would be an exhausted fuel, and it does not occur *)
+Lemma merge_word_fuel_l tbl w : Forall (fun b => b < 256) w -> merge_word tbl w <> None.
+Proof.
+  intros Hb H. unfold merge_word in H. destruct (merge_word_st tbl w) eqn:E; [discriminate|].
+  exact (merge_word_st_some tbl w Hb E).
+Qed.
+
+Lemma bpe_some_ok c s ids : bpe_tokenize c s = Some ids -> config_ok c = true.
+Proof. intro H. destruct (config_ok c) eqn:E; [reflexivity|]. rewrite (bpe_tokenize_error c s E) in H. discriminate. Qed.
+
+Lemma bpe_lossless_full c s ids : Forall valid_cp s -> bpe_tokenize c s = Some ids ->
+  bpe_decode (eff_table c) ids = utf8s (strip_trailing_ws s).
+Proof.
+  intros Hs H. destruct (bpe_lossless_l c s Hs (bpe_some_ok _ _ _ H)) as [ids' [E [D _]]]. congruence.
+Qed.
+
+Lemma bpe_ids_valid_l c s ids : Forall valid_cp s -> bpe_tokenize c s = Some ids ->
+  Forall (fun id => id < vocab_size c) ids.
+Proof.
+  intros Hs H. destruct (bpe_lossless_l c s Hs (bpe_some_ok _ _ _ H)) as [ids' [E [_ V]]]. congruence.
+Qed.
+
+Lemma bpe_total_l c s : Forall valid_cp s -> config_ok c = true -> bpe_tokenize c s <> None.
+Proof. intros Hs Hc. destruct (bpe_lossless_l c s Hs Hc) as [ids [E _]]. congruence. Qed.
+
+Lemma bpe_utf8_prefix_l c s ids : Forall valid_cp s -> bpe_tokenize c s = Some ids ->
+  exists p t, s = p ++ t /\ forallb is_ws t = true /\ bpe_decode (eff_table c) ids = utf8s p.
+Proof.
+  intros Hs H. destruct (strip_prefix_l s) as [t [E Ht]].
+  exists (strip_trailing_ws s), t. repeat split; try assumption. apply bpe_lossless_full; assumption.
+Qed.
+
+Lemma bpe_exact_l c s ids t ch : Forall valid_cp s -> bpe_tokenize c s = Some ids ->
+  s = t ++ [ch] -> is_ws ch = false -> bpe_decode (eff_table c) ids = utf8s s.
+Proof.
+  intros Hs H E Hc. rewrite (bpe_lossless_full c s ids Hs H). rewrite E, strip_id_l by exact Hc. reflexivity.
+Qed.
+
+(** * check_run *)
+Lemma v_n_n_v x : v_n (n_v x) = x.
+Proof. unfold v_n, n_v. cbn [v_z]. apply N2Z.id. Qed.
+
+Lemma v_list_list_v l : v_list v_n (list_v n_v l) = l.
+Proof. unfold list_v. cbn [v_list]. rewrite map_map. rewrite <- (map_id l) at 2. apply map_ext. apply v_n_n_v. Qed.
+
+Lemma val_eqb_nlist l : val_eqb (list_v n_v l) (list_v n_v l) = true.
+Proof.
+  unfold list_v. cbn [val_eqb]. induction l as [|x l IH]; cbn [map]; [reflexivity|].
+  rewrite IH. unfold n_v. cbn [val_eqb]. rewrite Z.eqb_refl. reflexivity.
+Qed.
+
+Lemma check_run_l v : Forall valid_cp (v_str (v_nth 5 v)) -> check_C02 v (run_C02 v) = true.
+Proof.
+  intro Hs. unfold check_C02, run_C02.
+  destruct (config_ok (v_config v)) eqn:Hc.
+  - destruct (bpe_lossless_l _ _ Hs Hc) as [ids [E [D V]]]. rewrite E.
+    rewrite v_list_list_v, val_eqb_nlist, D, val_eqb_nlist. cbn [andb].
+    rewrite andb_true_r. apply forallb_forall. intros id Hid. apply N.ltb_lt.
+    apply (proj1 (Forall_forall _ _) V). exact Hid.
+  - rewrite (bpe_tokenize_error _ _ Hc). reflexivity.
 Qed.
